@@ -136,6 +136,11 @@ def run(chk):
         cont = rng.choice(["list", "array", "series", "frame"])
         if _ == 0:
             cont = "list"
+        if 1 <= _ <= 6:
+            # every run: a single element and no element drawn from a list / Series / array (a one-element draw is still a collection of one)
+            cont, m = (("list", 1), ("series", 1), ("list", 0), ("array", 1), ("series", 0), ("list", 2))[_ - 1]
+            xs = [rng.choice(["CA", "CB", "CC", "CAD"]) for _i in range(6)]
+            N = 6
         np.random.seed((seed0 + k) % (2 ** 32))
         k += 1
         if cont == "frame":
@@ -168,7 +173,12 @@ def run(chk):
         if real[0] != "ok":
             chk.violation(f"C17|downsample|{cont}|raises-{real[1]}", f"downsample({cont} of {N}, {m}) raised {real[1]}", {"xs": xs, "m": m})
             continue
-        out = list(real[1])
+        try:
+            out = list(real[1])
+        except TypeError:
+            chk.violation(f"C17|downsample|{cont}|not-a-collection", f"downsample({cont} of {N}, {m}) returned {real[1]!r:.80}, which is not a collection "
+                          f"of {m if (m is not None and N > m) else N} elements", {"xs": xs, "m": m})
+            continue
         if m is None or N <= m:
             ok = out == xs
         else:
